@@ -450,13 +450,25 @@ class ResolverMixin:  # pylint: disable=too-few-public-methods
         else:
             superclass = None
 
-        # The Association qualifier is inherited from the superclass
-        if superclass and 'Association' in superclass.qualifiers:
+        # The Association qualifier is inherited from the superclass, which
+        # may itself have inherited it without restating it
+        superclass_is_assoc = False
+        ancestor = superclass
+        while ancestor is not None:
+            if 'Association' in ancestor.qualifiers:
+                superclass_is_assoc = True
+                break
+            if not ancestor.superclass:
+                break
+            ancestor = self.get_class(namespace, ancestor.superclass,
+                                      local_only=True,
+                                      include_qualifiers=True)
+        if superclass_is_assoc:
             is_association_class = True
 
         # Validate association qualifier matches superclass
         if is_association_class and superclass:
-            if 'Association' not in superclass.qualifiers:
+            if not superclass_is_assoc:
                 raise CIMError(
                     CIM_ERR_INVALID_PARAMETER,
                     _format("New class {0!A} derived from superclass {1!A} "
